@@ -1,8 +1,9 @@
 (* C04 - freeze protection: expired metadata is never trusted while enforcement is on.
    Pinned statements only; proofs are in Proofs/ClientP.v and Proofs/SitesP.v. The clock is sampled
    once per operation in the model ([cy_now]); the code samples it at each of the four checks. *)
-From ToughV Require Export Model.Base Model.Sig Model.Deleg Model.Client.
+From ToughV Require Export Model.Base Model.Sig Model.Glob Model.Deleg Model.Client Model.Stream Model.Read.
 From ToughV Require Import Proofs.ClientP Proofs.SitesP.
+From Coq Require Import ZifyBool Lia.
 Export ClientP SitesP.
 
 (* success under enforcement: the final root, timestamp, snapshot and targets are all unexpired
@@ -44,3 +45,41 @@ Theorem C04_no_false_expiry : forall fx cfg now e role w c a w',
   ((c = E_Expired /\ a = role /\ (e < now)%Z) \/ c = E_TimeBack \/ c = E_Killed \/ c = E_Datastore).
 Proof. exact check_expired_err. Qed.
 Print Assumptions C04_no_false_expiry.
+
+(* reading (and hence saving) a target from a loaded repository: under enforcement it succeeds only
+   strictly before the earliest of the four expirations, and not at all when the clock went back *)
+Theorem C04_read_safe : forall (H : bytes -> N) fx cfg now rp tsrv n w r w',
+  c_enforce cfg = true -> read_target H fx cfg now rp tsrv n w = (Ok r, w') ->
+  (now < fst (earliest rp))%Z /\ time_back now (w_store w) = false.
+Proof.
+  intros H fx cfg now rp tsrv n w r w' He E. unfold read_target in E. rewrite He in E.
+  destruct (sys_time fx now w) as [[t|c0 a0] w0] eqn:S; [|discriminate].
+  pose proof (sys_time_ok _ _ _ _ _ S). subst t.
+  split.
+  - destruct (now <? fst (earliest rp))%Z eqn:L; [apply Z.ltb_lt, L|discriminate].
+  - unfold sys_time in S. destruct (time_back now (w_store w)); [discriminate|reflexivity].
+Qed.
+Print Assumptions C04_read_safe.
+
+(* the earliest expiration is at most each of the four *)
+Theorem C04_earliest_is_min : forall rp,
+  (fst (earliest rp) <= r_expires (rp_root rp))%Z /\ (fst (earliest rp) <= ts_expires (rp_ts rp))%Z
+  /\ (fst (earliest rp) <= sn_expires (rp_snap rp))%Z /\ (fst (earliest rp) <= tg_expires (rp_targets rp))%Z.
+Proof.
+  intro rp. unfold earliest. cbn [tl fold_left fst].
+  destruct (ts_expires (rp_ts rp) <? r_expires (rp_root rp))%Z eqn:E1; cbn [fst];
+    match goal with |- context [(sn_expires (rp_snap rp) <? ?b)%Z] => destruct (sn_expires (rp_snap rp) <? b)%Z eqn:E2 end;
+    cbn [fst];
+    match goal with |- context [(tg_expires (rp_targets rp) <? ?b)%Z] => destruct (tg_expires (rp_targets rp) <? b)%Z eqn:E3 end;
+    cbn [fst]; lia.
+Qed.
+Print Assumptions C04_earliest_is_min.
+
+Theorem C04_read_unsafe : forall (H : bytes -> N) fx cfg now rp tsrv n w c a w',
+  c_enforce cfg = false -> read_target H fx cfg now rp tsrv n w = (Err c a, w') -> c = E_Transport.
+Proof.
+  intros H fx cfg now rp tsrv n w c a w' He E. unfold read_target in E. rewrite He in E.
+  destruct (find_target n (rp_targets rp)); [|discriminate].
+  destruct (tlookup _ tsrv); inversion E; reflexivity.
+Qed.
+Print Assumptions C04_read_unsafe.
